@@ -1,3 +1,4 @@
+pub uninterp spec fn is_builtin_error_class(callee: Value) -> bool;
 // the call dispatcher as the property/invoke handlers see it: a recording stub.  The real resolve_call is verified in the
 // `calls` unit against the dispatch contract (C16).
 impl Vm {
@@ -12,7 +13,19 @@ impl Vm {
             // the signals a call can end with (proved for the real resolve_call / call_native / call / call_closure in the calls and ncall units)
             r == ExecutionSignal::Ok || r == ExecutionSignal::OkReturn || r == ExecutionSignal::RuntimeError || r == ExecutionSignal::Exit,
             // A-hist: a runtime error signal means the error object is in flight (runtime_error -> set_error; the ops model records only its class)
-            r == ExecutionSignal::RuntimeError ==> final(self).fiber.error is Some
+            r == ExecutionSignal::RuntimeError ==> final(self).fiber.error is Some,
+            // A-errctor: calling one of the builtin error classes with a message completes (their init is native)
+            is_builtin_error_class(callee) ==> (r == ExecutionSignal::Ok || r == ExecutionSignal::OkReturn),
+            (is_builtin_error_class(callee) && r == ExecutionSignal::OkReturn) ==> (v_is_obj(final(self).fiber.stack@.last()) && o_kind(v_obj(final(self).fiber.stack@.last())) == ObjectKind::Instance),
+            // the call protocol (call_class / call_native / call / call_closure: calls, ncall units): the callee slot and the arguments are the
+            // top arg_count + 1 slots; a callee that completes at once replaces them by its result, one that needs the interpreter loop gets a
+            // frame that remembers arg_count and leaves the stack as it is; nothing BELOW the callee slot is touched
+            (r == ExecutionSignal::OkReturn && old(self).fiber.stack@.len() >= arg_count as int + 1) ==> final(self).fiber.stack@.len() == old(self).fiber.stack@.len() - arg_count as int
+              && final(self).fiber.stack@.subrange(0, old(self).fiber.stack@.len() - (arg_count as int + 1)) == old(self).fiber.stack@.subrange(0, old(self).fiber.stack@.len() - (arg_count as int + 1))
+              && final(self).fiber.frames == old(self).fiber.frames,
+            r == ExecutionSignal::Ok ==> final(self).fiber.frames@.len() == old(self).fiber.frames@.len() + 1 && final(self).fiber.frames@.last().arg_count == arg_count
+              && final(self).fiber.stack@.len() == old(self).fiber.stack@.len()
+              && (old(self).fiber.stack@.len() >= arg_count as int + 1 ==> final(self).fiber.stack@.subrange(0, old(self).fiber.stack@.len() - (arg_count as int + 1)) == old(self).fiber.stack@.subrange(0, old(self).fiber.stack@.len() - (arg_count as int + 1)))
   { ExecutionSignal::Ok }
 
 }
